@@ -237,7 +237,8 @@ impl<const K: usize> Protocol for Happ<K> {
             self.send_one(&machine).await;
         }
         let mut post: Vec<(i64, i64)> = self.spec.shots.iter().filter(|x| x.0 >= 0).cloned().collect();
-        post.sort();
+        // stable: requests of one instant are made in the order listed in the case
+        post.sort_by_key(|x| x.0);
         for (w, st) in post {
             tokio::time::sleep_until(t0 + Duration::from_millis(w as u64)).await;
             self.shoot(&shutdown, st);
@@ -553,7 +554,7 @@ impl Family for C13 {
                 }
                 ms.push(toks.join(" "));
             }
-        } else if stream < 80 {
+        } else if stream < 78 {
             // built-in mixes on one network + slow harness applications that hold the barrier shut
             let n = rng.range(2, 5) as usize;
             // 0: nobody has Arp, 1: everybody, 2: mixed (only when the tables name the MAC: an unanswered
@@ -607,7 +608,7 @@ impl Family for C13 {
                 }
                 ms.push(toks.join(" "));
             }
-        } else if stream < 92 {
+        } else if stream < 88 {
             // socket family: a server/client pair over SocketAPI (pre-barrier `new_socket().await`) + harness applications
             let dgram = rng.below(2);
             let which = rng.below(2);
@@ -630,20 +631,50 @@ impl Family for C13 {
                 ms.push(toks.join(" "));
             }
         } else {
-            // many concurrent shutdown requests with different statuses
-            let total = *rng.pick(&[5usize, 12, 16, 17, 24, 40]);
+            // bursts of shutdown requests: plain `shut_down()` (Exited, written -1) mixed with
+            // `shut_down_with_status(Status(k))`, often more than the 16 slots of the channel before the run task is polled
+            let total = *rng.pick(&[5usize, 12, 16, 17, 17, 18, 24, 40]);
             let when = *rng.pick(&[-1i64, 0, 0, 7]);
-            let mut left = total;
             let mut st = rng.range(1, 50) as i64;
-            while left > 0 {
-                let k = left.min(4);
-                let mut toks = vec!["0".to_string()];
-                for j in 0..k {
-                    toks.push(format!("h{}:0:0:0:{}:0:{}/{}", j, rng.below(2), when, st));
-                    st += 1;
+            // position-controlled mixes: 0 first plain then explicit, 1 first explicit then plain, 2 plain only at
+            // the end, 3 random mix, 4 all explicit
+            let mix = rng.below(5);
+            let status_at = |i: usize, rng: &mut Rng, st: &mut i64| -> i64 {
+                let plain = match mix {
+                    0 => i == 0,
+                    1 => i != 0,
+                    2 => i + 1 == total,
+                    3 => rng.coin(2, 5),
+                    _ => false,
+                };
+                if plain {
+                    -1
+                } else {
+                    *st += 1;
+                    *st
                 }
-                left -= k;
-                ms.push(toks.join(" "));
+            };
+            if rng.coin(1, 2) {
+                // one application makes the whole burst itself, in the listed order, without yielding
+                let shots: Vec<String> = (0..total).map(|i| format!("{}/{}", when, status_at(i, rng, &mut st))).collect();
+                ms.push(format!("0 h0:0:0:0:{}:0:{}", rng.below(2), shots.join(",")));
+                if rng.coin(1, 2) {
+                    ms.push(format!("0 h0:{}:0:0:0:0:{}/{}", if when < 0 { 3 } else { 0 }, when.max(0) + 1, 77));
+                }
+            } else {
+                // one request per application: the scheduler decides who is first
+                let mut left = total;
+                let mut i = 0usize;
+                while left > 0 {
+                    let k = left.min(4);
+                    let mut toks = vec!["0".to_string()];
+                    for j in 0..k {
+                        toks.push(format!("h{}:0:0:0:{}:0:{}/{}", j, rng.below(2), when, status_at(i, rng, &mut st)));
+                        i += 1;
+                    }
+                    left -= k;
+                    ms.push(toks.join(" "));
+                }
             }
         }
         // run_internet without a timeout only when something is sure to end the run: a request made before the
@@ -700,6 +731,17 @@ impl Family for C13 {
                 }
                 if h.shots.is_empty() {
                     stat("app never-shuts-down");
+                }
+                if h.shots.len() > 16 {
+                    stat(match (h.shots[0].1 < 0, h.shots.iter().skip(1).any(|x| x.1 < 0), h.shots.iter().skip(1).any(|x| x.1 >= 0)) {
+                        (true, _, true) => "burst >16 by one app: first plain, explicit later",
+                        (false, true, _) => "burst >16 by one app: first explicit, plain later",
+                        (true, _, false) => "burst >16 by one app: all plain",
+                        (false, false, _) => "burst >16 by one app: all explicit",
+                    });
+                }
+                for (_, st) in &h.shots {
+                    stat(if *st < 0 { "request plain shut_down()" } else { "request shut_down_with_status(k)" });
                 }
                 for (w, _) in &h.shots {
                     stat(if *w < 0 {
